@@ -31,6 +31,17 @@ class Runner:
         self.idmap[self.next_id] = (hist, step)
         return dict(id=self.next_id, op=op, out=out, obs=ob, kids=[])
 
+    def nodes_for(self, w, hist, step, op, out, ob):
+        """tree nodes (a chain) for one harness event: an atomic operation is one node; a
+        Start / Step of an interleaved subroutine is the model operations that ran between the
+        two yield points, observable only after the last one"""
+        mops = w.last_model_ops
+        chain = []
+        for j, mop in enumerate(mops):
+            last = j == len(mops) - 1
+            chain.append(self.node(hist, step, mop, out if last else -1, ob if last else None))
+        return chain
+
     def run_history(self, ops, contract_ok=True, want_tree=True):
         """fresh world; returns (root-or-None, failures [(step, text)], outcomes, well_formed)"""
         w = self.world()
@@ -39,18 +50,24 @@ class Runner:
         wf = True
         for i, op in enumerate(ops):
             op = tuple(op)
-            if op[0] == "Keep" and (op[1], op[6][2]) not in w.reserved:
-                wf = False
+            if op[0] == "Keep":
+                key = (op[1], op[6][2])
+                used_now = key[0] in w.ctrls and key[1] in w.ctrls[key[0]]._executor._used_physical_qubit_addresses
+                if key not in w.reserved and used_now:
+                    wf = False
+            if op[0] == "Step" and op[3] not in w.live:
+                outs.append(None)       # the subroutine already ended or died (shrinking removes events)
+                continue
             out, ob, bad = self.do(w, op, contract_ok=contract_ok and wf)
             outs.append(out)
             fails += [(i, b) for b in bad]
             if want_tree:
-                n = self.node(ops, i, op, out, ob)
-                if cur is None:
-                    root = n
-                else:
-                    cur["kids"].append(n)
-                cur = n
+                for n in self.nodes_for(w, ops, i, op, out, ob):
+                    if cur is None:
+                        root = n
+                    else:
+                        cur["kids"].append(n)
+                    cur = n
         return root, fails, outs, wf
 
 
@@ -63,7 +80,7 @@ def from_json(x):
 
 
 # ---------------------------------------------------------------------- generation
-def gen_walk(rng, runner, length, stats):
+def gen_walk(rng, runner, length, stats, interleave=True):
     """stateful random walk: the next operation is chosen looking at the harness's own
     lifecycle record (registered apps, reserved qubits); returns the op list"""
     w = runner.world()
@@ -85,11 +102,37 @@ def gen_walk(rng, runner, length, stats):
             return rng.randrange(n)
         return rng.choice([n, n + 1, -1, -n, -n - 1, -2, 0, 1])
 
+    def block(nd, a):
+        r = rng.random()
+        if r < 0.35:
+            return ("QAlloc", nd, a, pick_v(nd, a))
+        if r < 0.55:
+            return ("QFree", nd, a, pick_v(nd, a))
+        if r < 0.70:
+            return ("SetReg", nd, a, (rng.randrange(4), rng.choice([0, 1, 2])), rng.randrange(-20, 20))
+        if r < 0.80:
+            return ("NewArr", nd, a, rng.randrange(4), rng.choice([1, 2, 3]))
+        if r < 0.90:
+            return ("Store", nd, a, rng.randrange(4), rng.choice([0, 1, 2]), rng.randrange(-9, 9))
+        if r < 0.95:
+            return ("RetReg", nd, a, (rng.randrange(4), rng.choice([0, 1, 2])))
+        return ("RetArr", nd, a, rng.randrange(4))
+
     force = None
+    nlabel = 0
     while len(ops) < length:
         nd = rng.choice(nodes)
         if force is not None:
             op, force = force, None
+        elif interleave and rng.random() < 0.34 and (w.live or any(k[0] == nd for k in w.registered)):
+            # subroutines of several applications as interleaved generators
+            if w.live and (len(w.live) >= 3 or rng.random() < 0.62):
+                label = rng.choice(sorted(w.live))
+                op = ("Step", w.live[label]["nd"], w.live[label]["app"], label)
+            else:
+                a = pick_app(nd, True)
+                nlabel += 1
+                op = ("Start", nd, a, nlabel, tuple(block(nd, a) for _ in range(rng.choice([2, 2, 3, 4]))))
         else:
             r = rng.random()
             if not any(k[0] == nd for k in w.registered):
@@ -112,20 +155,28 @@ def gen_walk(rng, runner, length, stats):
             elif r < 0.64:
                 op = ("Reserve", nd)
             elif r < 0.78:
+                # the delivered physical id: reserved from the pool, or any id not marked in use --
+                # biased to ids released a moment ago and to the lowest unused id
                 res = sorted(p for (n_, p) in w.reserved if n_ == nd)
-                if not res:
-                    op = ("Reserve", nd)
-                else:
-                    a = pick_app(nd, True)
-                    p = rng.choice(res)
-                    qa, ra = rng.sample(range(6), 2)
-                    if rng.random() < 0.04:
-                        ra = qa
-                    info = (0, rng.randrange(50), p, 1, rng.randrange(10), rng.randrange(4),
-                            rng.choice([x for x in range(4) if x != nd]),  # remote node: never ourselves
-                           
-                            rng.randrange(100), rng.randrange(1000), rng.randrange(4))
-                    op = ("Keep", nd, a, pick_v(nd, a), qa, ra, info)
+                used_nd = set(w.ctrl(nd)._executor._used_physical_qubit_addresses)
+                freed = [p for p in w.recent_free.get(nd, []) if p not in used_nd]
+                low = min(p for p in range(len(used_nd) + 1) if p not in used_nd)
+                cands = ([rng.choice(res)] * 4 if res else []) + ([rng.choice(freed)] * 4 if freed else []) \
+                    + [low] * 2 + [low + rng.randrange(3)]
+                p = rng.choice(cands)
+                if p in used_nd and (nd, p) not in w.reserved:
+                    p = low
+                a = pick_app(nd, True)
+                qa, ra = rng.sample(range(6), 2)
+                if rng.random() < 0.04:
+                    ra = qa
+                info = (0, rng.randrange(50), p, 1, rng.randrange(10), rng.randrange(4),
+                        rng.choice([x for x in range(4) if x != nd]),  # remote node: never ourselves
+                        rng.randrange(100), rng.randrange(1000), rng.randrange(4))
+                op = ("Keep", nd, a, pick_v(nd, a), qa, ra, info)
+                if rng.random() < 0.6:
+                    a2 = pick_app(nd, True)
+                    force = ("QAlloc", nd, a2, pick_v(nd, a2))      # an allocation follows the delivery
             elif r < 0.84:
                 a = pick_app(nd, True)
                 op = ("SetReg", nd, a, (rng.randrange(4), rng.choice([0, 0, 1, 2, 15])),
@@ -157,49 +208,128 @@ ALPHABET = [("Init", 0, 0, 2), ("Init", 0, 1, 1), ("Stop", 0, 0), ("Stop", 0, 1)
             ("Reserve", 0), ("KeepMin", 0, 0, 0), ("KeepMin", 0, 1, 0)]
 
 
-def exhaustive(runner, depth, report):
-    """every history of length <= depth over ALPHABET (KeepMin = deliver the oldest reserved
-    qubit; pruned when nothing is reserved).  The implementation is re-run from a fresh
-    world for every node; returns the list of root trees."""
+ALPHABET_KEEP = ALPHABET + [("KeepLow", 0, 0, 0), ("KeepLow", 0, 1, 0)]
+# two qubits allocated and the first one released again: every continuation is enumerated
+RELEASED_PREFIX = [("Init", 0, 0, 2), ("Init", 0, 1, 1), ("QAlloc", 0, 0, 0), ("QAlloc", 0, 0, 1), ("QFree", 0, 0, 0)]
+
+
+def exhaustive(runner, depth, report, alphabet=None, prefix=()):
+    """every history prefix + (<= depth symbols of the alphabet).  KeepMin = deliver the oldest
+    reserved qubit (pruned when nothing is reserved); KeepLow = deliver on the lowest physical
+    id that is not marked in use (a free, unreserved qubit: legal for the link layer).  The
+    implementation is re-run from a fresh world for every node; returns the root trees."""
+    alphabet = ALPHABET if alphabet is None else alphabet
+    prefix = list(prefix)
     roots = []
     count = [0]
+    parent0 = None
+    w = runner.world()
+    for i, op in enumerate(prefix):
+        out, ob, bad = runner.do(w, op)
+        n = runner.node(prefix[:i + 1], i, op, out, ob)
+        (roots if parent0 is None else parent0["kids"]).append(n)
+        parent0 = n
 
     def concretise(w, sym):
-        if sym[0] != "KeepMin":
+        if sym[0] == "KeepMin":
+            res = sorted(p for (n_, p) in w.reserved if n_ == sym[1])
+            if not res:
+                return None
+            p = res[0]
+        elif sym[0] == "KeepLow":
+            used_nd = set(w.ctrl(sym[1])._executor._used_physical_qubit_addresses)
+            p = min(q for q in range(len(used_nd) + 1) if q not in used_nd)
+        else:
             return sym
-        res = sorted(p for (n_, p) in w.reserved if n_ == sym[1])
-        if not res:
-            return None
-        return ("Keep", sym[1], sym[2], sym[3], 0, 1, (0, 7, res[0], 1, 0, 0, 1, 3, 4, 1))
+        return ("Keep", sym[1], sym[2], sym[3], 0, 1, (0, 7, p, 1, 0, 0, 1, 3, 4, 1))
 
-    def expand(prefix, parent):
-        for sym in ALPHABET:
+    def expand(path, parent, left):
+        for sym in alphabet:
             w = runner.world()
-            for o in prefix:
+            for o in path:
                 w.apply(o)
             op = concretise(w, sym)
             if op is None:
                 continue
             out, ob, bad = runner.do(w, op)
             count[0] += 1
-            path = prefix + [op]
-            n = runner.node(path, len(path) - 1, op, out, ob)
-            runner.ctx.note_case(str(path), nontrivial=len(path) >= 2 and bool(ob["image"]))
+            npath = path + [op]
+            n = runner.node(npath, len(npath) - 1, op, out, ob)
+            runner.ctx.note_case(str(npath), nontrivial=len(npath) >= 2 and bool(ob["image"]))
             for b in bad:
-                report(path, len(path) - 1, b)
+                report(npath, len(npath) - 1, b)
             (roots if parent is None else parent["kids"]).append(n)
-            if len(path) < depth:
-                expand(path, n)
+            if left > 1:
+                expand(npath, n, left - 1)
 
-    expand([], None)
+    expand(prefix, parent0, depth)
     return roots, count[0]
+
+
+def interleavings(runner, subs, prefix, report):
+    """every interleaving of the Start / Step events of the given subroutines (label, nd, app,
+    blocks) after the prefix, as a prefix tree: a subroutine of k blocks is one Start and k - 1
+    Steps, suspended inside a gate in between"""
+    roots = []
+    count = [0]
+    w = runner.world()
+    parent0 = None
+    prefix = list(prefix)
+    for i, op in enumerate(prefix):
+        out, ob, bad = runner.do(w, op)
+        n = runner.node(prefix[:i + 1], i, op, out, ob)
+        (roots if parent0 is None else parent0["kids"]).append(n)
+        parent0 = n
+
+    def expand(path, parent, progress):
+        for (label, nd, app, blocks) in subs:
+            done = progress[label]
+            if done >= len(blocks):
+                continue
+            ev = ("Start", nd, app, label, tuple(blocks)) if done == 0 else ("Step", nd, app, label)
+            w = runner.world()
+            for o in path:
+                w.apply(o)
+            if ev[0] == "Step" and label not in w.live:
+                continue          # died at a fault
+            out, ob, bad = runner.do(w, ev)
+            count[0] += 1
+            npath = path + [ev]
+            chain = runner.nodes_for(w, npath, len(npath) - 1, ev, out, ob)
+            runner.ctx.note_case(str(npath), nontrivial=True)
+            for b in bad:
+                report(npath, len(npath) - 1, b)
+            if not chain:
+                continue
+            (roots if parent is None else parent["kids"]).append(chain[0])
+            for x, y in zip(chain, chain[1:]):
+                x["kids"].append(y)
+            np_ = dict(progress)
+            np_[label] = done + 1
+            expand(npath, chain[-1], np_)
+
+    expand(prefix, parent0, {s_[0]: 0 for s_ in subs})
+    return roots, count[0]
+
+
+def interleave_scenarios(tier):
+    pre = [("Init", 0, 0, 2), ("Init", 0, 1, 2), ("Init", 0, 2, 2)]
+    A = (1, 0, 0, [("QAlloc", 0, 0, 0), ("SetReg", 0, 0, (0, 1), 5), ("QFree", 0, 0, 0)])
+    B = (2, 0, 1, [("SetReg", 0, 1, (0, 2), 7), ("QAlloc", 0, 1, 1), ("NewArr", 0, 1, 0, 2)])
+    C = (3, 0, 2, [("QAlloc", 0, 2, 0), ("RetReg", 0, 2, (2, 0)), ("Store", 0, 2, 0, 0, 3)])
+    if tier == "quick":
+        cut = lambda s_: (s_[0], s_[1], s_[2], s_[3][:2])
+        return [("three-apps-two-blocks", [cut(A), cut(B), cut(C)], pre)]
+    return [("three-apps-three-blocks", [A, B, C], pre),
+            ("same-app-twice", [A, (2, 0, 0, [("QAlloc", 0, 0, 1), ("SetReg", 0, 0, (0, 1), 9), ("QFree", 0, 0, 1)]),
+                                (3, 0, 1, B[3])], pre)]
 
 
 # ---------------------------------------------------------------------- shrinking
 def kind_of(text):
     """failure class of an oracle message: its words without the concrete ids"""
     import re
-    return re.sub(r"[^a-zA-Z ]+", "", text)[:48]
+    return re.sub(r"[^a-zA-Z ]+", "", re.split(r"[\[\(\{:]", text)[0])[:48].strip()
 
 
 def shrink(runner, ops, text):
@@ -229,7 +359,11 @@ def run(ctx):
                 "pool reservations and keep-response deliveries, sent through QNodeController.handle_netqasm_message of "
                 "1-2 controllers sharing the SharedMemoryManager; <=3 application ids per node, unit modules 0..4, virtual "
                 "addresses in and out of range (incl. negative); stateful random walks (stop is followed by re-registration "
-                "of the same id with p=0.6) + every history up to a depth over a 13-symbol alphabet; after EVERY operation the "
+                "of the same id with p=0.6; keep deliveries land on reserved ids, on ids released a moment ago or on the lowest "
+                "unused id, and are followed by allocations; subroutines of several applications also run as INTERLEAVED "
+                "generators suspended inside gates: Start/Step events) + every history up to a depth over a 13-symbol alphabet "
+                "+ every continuation (15 symbols) of a history that released a qubit + every interleaving of three "
+                "multi-block subroutines of different applications; after EVERY operation / yield point the "
                 "executor's maps are compared with the Coq model and the property oracle runs on them. Non-trivial = the "
                 "history maps at least one qubit and has >=2 operations; distinct = distinct operation list")
     res = ctx.props("C13")
@@ -240,11 +374,17 @@ def run(ctx):
     ctx.trusted.append("correspondence: Exec/QmemCheck.v evaluated by vm_compute inside coqc on generated prefix trees")
     ctx.assume.append("fresh_delivery (environment contract, hypothesis of C13_inv_step/C13_inv_reachable): the physical qubit named "
                       "by a keep response was reserved through the executor's own _get_unused_physical_qubit and not delivered "
-                      "yet; the network stack owns communication-qubit allocation. Without it the executor double-maps "
+                      "yet, OR is not marked in use at all at the moment of delivery (free and unmapped); the network stack "
+                      "owns communication-qubit allocation. Without it the executor double-maps "
                       "(C13_inv_without_fresh_refuted, replayed on the implementation every run, recorded as assumption not as "
                       "finding: the executor has no way to pick or veto the link layer's qubit id)")
     ctx.assume.append("outstanding EPR requests / pending responses are not part of this model (C12): after a deferred or failed "
                       "delivery the harness withdraws the response and its request")
+    ctx.assume.append("interleaved subroutines: the Coq model is atomic per instruction block (any interleaving of blocks of "
+                      "different applications IS a history, so the theorems cover it); that the executor's subroutine table "
+                      "(id -> subroutine, program counter) routes a resumed subroutine's instructions to its own application "
+                      "is checked by the correspondence and the isolation oracle under generated and enumerated interleavings, "
+                      "not proved")
     ctx.assume.append("Stop is modelled exactly only when set.remove cannot miss (proved under the invariant: C13_no_internal_fault)")
 
     violations = []
@@ -291,6 +431,18 @@ def run(ctx):
     depth = 3 if quick else 4
     ex_roots, ex_nodes = exhaustive(runner, depth, report)
     ctx.coverage["exhaustive_small_histories"] = dict(depth=depth, alphabet=len(ALPHABET), nodes=ex_nodes)
+    # deliveries onto released / lowest unused physical ids followed by allocations
+    rel_roots, rel_nodes = exhaustive(runner, 2 if quick else 3, report, alphabet=ALPHABET_KEEP, prefix=RELEASED_PREFIX)
+    ctx.coverage["exhaustive_after_release"] = dict(prefix=jsonable(RELEASED_PREFIX), depth=2 if quick else 3,
+                                                    alphabet=len(ALPHABET_KEEP), nodes=rel_nodes)
+    # subroutines of several applications as interleaved generators: every interleaving
+    il_roots, il_info = [], {}
+    for name, subs, pre in interleave_scenarios(ctx.tier):
+        r_, c_ = interleavings(runner, subs, pre, report)
+        il_roots.append(r_)
+        il_info[name] = dict(subroutines=len(subs), blocks=[len(x[3]) for x in subs], nodes=c_)
+    ctx.coverage["every_interleaving_scenarios"] = il_info
+    ex_nodes += rel_nodes + sum(v["nodes"] for v in il_info.values())
     ctx.log(f"implementation runs done: {n_walks} walks, {ex_nodes} exhaustive nodes, oracle failures {len(violations)}")
 
     # ---- malformed stream: the contract broken on purpose (assumption evidence, model must still agree)
@@ -306,7 +458,7 @@ def run(ctx):
     malformed = [mroot]
     for _ in range(20 if quick else 200):
         # random well-formed prefix, then one delivery naming a mapped qubit, then frees
-        ops = gen_walk(ctx.rng, runner, ctx.rng.choice([6, 12, 20]), {})
+        ops = gen_walk(ctx.rng, runner, ctx.rng.choice([6, 12, 20]), {}, interleave=False)
         w = runner.world()
         for o in ops:
             w.apply(o)
@@ -334,6 +486,9 @@ def run(ctx):
         files[f"cases_walk_{i}.v"] = g
     for i, r in enumerate(ex_roots):
         files[f"cases_exh_{i}.v"] = [r]
+    files["cases_release.v"] = rel_roots
+    for i, r in enumerate(il_roots):
+        files[f"cases_interleave_{i}.v"] = r
     files["cases_malformed.v"] = malformed
     for fn, g in files.items():
         qi.write_case_file(os.path.join(ctx.build, fn), g)
@@ -366,7 +521,7 @@ def run(ctx):
         for h in seeds:
             # continue the differing history with further random operations of the same applications
             for _ in range(30):
-                ext = list(h) + gen_walk(ctx.rng, runner, 6, {})
+                ext = list(h) + gen_walk(ctx.rng, runner, 6, {}, interleave=False)
                 _, fl, _, wf = runner.run_history(ext, want_tree=False)
                 if wf and fl:
                     report(ext[:fl[0][0] + 1], fl[0][0], fl[0][1])
